@@ -190,14 +190,14 @@ Print Assumptions C11_anim_branch.
     to _close_image, the size setting and the seek position are those at entry *)
 Theorem C11_draw_leaves_nothing :
   forall vs, length vs = nv_BaseImage_draw ->
-  forall o s', eval cfg_c11 false (protect sk_BaseImage_draw) (init vs) o s' ->
+  forall o s', Eff.eval cfg_c11 false (protect sk_BaseImage_draw) (Eff.init vs) o s' ->
     imgs_closed s' = true /\ szmod s' = false /\ skmod s' = false.
 Proof. exact draw_leaves_nothing. Qed.
 Print Assumptions C11_draw_leaves_nothing.
 
 Theorem C11_images_balanced :
   forall vs, length vs = nv_BaseImage_draw ->
-  forall o s', eval cfg_c11 false (protect sk_BaseImage_draw) (init vs) o s' -> imgs_closed s' = true.
+  forall o s', Eff.eval cfg_c11 false (protect sk_BaseImage_draw) (Eff.init vs) o s' -> imgs_closed s' = true.
 Proof. exact images_balanced. Qed.
 Print Assumptions C11_images_balanced.
 
@@ -205,41 +205,41 @@ Print Assumptions C11_images_balanced.
     positions: frame renders incl. the generator's next(), frame writes, flushes, sleeps) *)
 Theorem C11_draw_restores_seek :
   forall vs, length vs = nv_BaseImage_draw ->
-  forall o s', eval cfg_draw false (protect sk_BaseImage_draw) (init vs) o s' ->
+  forall o s', Eff.eval cfg_draw false (protect sk_BaseImage_draw) (Eff.init vs) o s' ->
     skmod s' = false /\ iter_open s' = false.
 Proof. exact draw_restores_seek. Qed.
 Print Assumptions C11_draw_restores_seek.
 
 Theorem C11_display_animated_restores :
   forall vs, length vs = nv_BaseImage__display_animated ->
-  forall o s', eval cfg_c11 false sk_BaseImage__display_animated (init vs) o s' ->
+  forall o s', Eff.eval cfg_c11 false sk_BaseImage__display_animated (Eff.init vs) o s' ->
     skmod s' = false /\ imgs_closed s' = true.
 Proof. exact display_animated_restores. Qed.
 Print Assumptions C11_display_animated_restores.
 
 Theorem C11_display_animated_closes_iterator :
   forall vs, length vs = nv_BaseImage__display_animated ->
-  forall o s', eval cfg_draw false sk_BaseImage__display_animated (init vs) o s' -> iter_open s' = false.
+  forall o s', Eff.eval cfg_draw false sk_BaseImage__display_animated (Eff.init vs) o s' -> iter_open s' = false.
 Proof. exact display_animated_closes_iterator. Qed.
 Print Assumptions C11_display_animated_closes_iterator.
 
 (** rendering never alters the image's size setting (fixed or dynamic) *)
 Theorem C11_renderer_restores_size :
   forall vs, length vs = nv_BaseImage__renderer ->
-  forall o s', eval cfg_all false (sk_BaseImage__renderer (Op Render)) (init vs) o s' -> szmod s' = false.
+  forall o s', Eff.eval cfg_all false (sk_BaseImage__renderer (Op Render)) (Eff.init vs) o s' -> szmod s' = false.
 Proof. exact renderer_restores_size. Qed.
 Print Assumptions C11_renderer_restores_size.
 
 Theorem C11_old_draw_restores_size :
   forall vs, length vs = nv_BaseImage_draw ->
-  forall o s', eval cfg_all false (protect sk_BaseImage_draw) (init vs) o s' -> szmod s' = false.
+  forall o s', Eff.eval cfg_all false (protect sk_BaseImage_draw) (Eff.init vs) o s' -> szmod s' = false.
 Proof. exact old_draw_restores_size. Qed.
 Print Assumptions C11_old_draw_restores_size.
 
 (** _renderer: if the renderer raises, the image has been handed to _close_image *)
 Theorem C11_renderer_closes_on_failure :
   forall vs, length vs = nv_BaseImage__renderer ->
-  forall k s', eval cfg_c11 false (sk_BaseImage__renderer (sq [Op Other; Op Render; Op Other])) (init vs) (ORaise k) s' ->
+  forall k s', Eff.eval cfg_c11 false (sk_BaseImage__renderer (sq [Op Other; Op Render; Op Other])) (Eff.init vs) (Eff.ORaise k) s' ->
     imgs_closed s' = true.
 Proof. exact renderer_closes_on_failure. Qed.
 Print Assumptions C11_renderer_closes_on_failure.
@@ -249,7 +249,7 @@ Print Assumptions C11_renderer_closes_on_failure.
 Theorem C11_format_images_balanced :
   forall r, In r render_images ->
   forall vs, length vs = nv_imgskel ->
-  forall o s', eval cfg_c11 false (sk_BaseImage__renderer (as_renderer r)) (init vs) o s' ->
+  forall o s', Eff.eval cfg_c11 false (sk_BaseImage__renderer (as_renderer r)) (Eff.init vs) o s' ->
     imgs_closed s' = true /\ szmod s' = false.
 Proof. exact format_images_balanced. Qed.
 Print Assumptions C11_format_images_balanced.
@@ -258,8 +258,8 @@ Print Assumptions C11_format_images_balanced.
 Theorem C11_render_image_closes_its_image :
   forall r, In r render_images ->
   forall vs, length vs = nv_imgskel ->
-  forall o s', eval cfg_c11 false (sq [Op (OpenImg 0); as_renderer r]) (init vs) o s' ->
-    (forall k, o <> ORaise k) -> imgs_closed s' = true.
+  forall o s', Eff.eval cfg_c11 false (sq [Op (OpenImg 0); as_renderer r]) (Eff.init vs) o s' ->
+    (forall k, o <> Eff.ORaise k) -> imgs_closed s' = true.
 Proof. exact render_image_closes_its_image. Qed.
 Print Assumptions C11_render_image_closes_its_image.
 
@@ -267,7 +267,7 @@ Print Assumptions C11_render_image_closes_its_image.
 Theorem C11_frame_image_never_closed :
   forall r, In r render_images ->
   forall vs, length vs = nv_imgskel ->
-  forall o s', eval cfg_c11 false (as_frame r) (init vs) o s' -> get 0 (imgs s') = true.
+  forall o s', Eff.eval cfg_c11 false (as_frame r) (Eff.init vs) o s' -> Eff.get 0 (Eff.imgs s') = true.
 Proof. exact frame_image_never_closed. Qed.
 Print Assumptions C11_frame_image_never_closed.
 
